@@ -16,12 +16,15 @@ CONSTANTS
   Bad <- MCBad
   Spellings <- MCSpellings
   JunkClasses <- MCJunk
+  MaxLoads = %(loads)d
+  HistGivens <- %(givens)s
 %(inv)s
 CHECK_DEADLOCK FALSE
 """
-INV = ("INVARIANTS TypeOK TwoOutcomes ResultIsEffective ErrorIsJustified BadIsRejected SingleSource PairPrecedence\n"
+INV = ("INVARIANTS TypeOK TwoOutcomes ResultIsEffective ErrorIsJustified BadIsRejected SingleSource PairPrecedence HistoryIndependent\n"
        "PROPERTY Terminates")
-FILES = ["config/c15_test.go", "config/c15_run_test.go"]
+HINV = "INVARIANTS TypeOK TwoOutcomes ResultIsEffective ErrorIsJustified BadIsRejected HistoryIndependent"
+FILES = ["config/c15_test.go", "config/c15_history_test.go", "config/c15_run_test.go"]
 
 
 def harness(ctx, cases, what, env=None, run="^TestVerifC15$", timeout=1500):
@@ -47,7 +50,7 @@ def run(ctx):
     ]
     # 1. the model: exhaustive over the full product in thorough, over the generator's universe in quick
     spec = ctx.pick("SmallSpec", "Spec")
-    mc = ctx.tlc("ConfigSources_MC", cfg_text=CFG % dict(spec=spec, inv=INV), workers=ctx.pick(4, 8),
+    mc = ctx.tlc("ConfigSources_MC", cfg_text=CFG % dict(spec=spec, inv=INV, loads=1, givens="MCNoGivens"), workers=ctx.pick(4, 8),
                  coverage=ctx.thorough, timeout=ctx.pick(120, 900))
     ctx.log("MC(%s): %d generated, %d distinct, %.0fs" % (spec, mc.generated, mc.distinct, mc.wall))
     if not ctx.need_tlc_ok(mc, "ConfigSources MC"):
@@ -59,7 +62,7 @@ def run(ctx):
 
     # 2. the generator: one case per completed Load
     cases = os.path.join(ctx.tmp, "c15.cases")
-    g = ctx.tlc("ConfigSources_MC", cfg_text=CFG % dict(spec="GenSpec", inv=""), workers=4, json_sink=cases, timeout=300)
+    g = ctx.tlc("ConfigSources_MC", cfg_text=CFG % dict(spec="GenSpec", inv="INVARIANTS " + ctx.pick("PrintDegenerate2", "PrintDegenerate3"), loads=1, givens="MCNoGivens"), workers=4, json_sink=cases, timeout=300)
     if not ctx.need_tlc_ok(g, "ConfigSources Gen"):
         return
     ncases = sum(1 for _ in open(cases))
@@ -69,15 +72,36 @@ def run(ctx):
         return
     ctx.cover("gen", states=g.distinct, transitions=g.generated)
 
+    # 2b. histories: several Loads in one process
+    hcases = os.path.join(ctx.tmp, "c15.hist")
+    gh = ctx.tlc("ConfigSources_MC", cfg_text=CFG % dict(spec="HistGenSpec", inv=HINV, loads=3, givens="MCHistGivens"), workers=4,
+                 json_sink=hcases, coverage=ctx.thorough, timeout=300)
+    if not ctx.need_tlc_ok(gh, "ConfigSources Hist"):
+        return
+    if ctx.thorough and gh.coverage0:
+        ctx.inconclusive("ConfigSources Hist: actions never taken: %s" % gh.coverage0)
+        return
+    nh = sum(1 for _ in open(hcases))
+    ctx.log("Hist: %d histories of 3 Loads (%d states), %.0fs" % (nh, gh.distinct, gh.wall))
+    if nh < 100:
+        ctx.inconclusive("history generator produced only %d histories" % nh)
+        return
+    ctx.cover("hist", states=gh.distinct, transitions=gh.generated)
+
     # 3. replay into config.Load for every registered option
     r = harness(ctx, cases, "C15 replay",
-                env={"VERIF_C15_EXTRA_EVERY": ctx.pick(6, 1), "VERIF_C15_DEEP_EVERY": ctx.pick(3, 1),
+                env={"VERIF_C15_EXTRA_EVERY": ctx.pick(6, 1), "VERIF_C15_DEEP_EVERY": ctx.pick(3, 1), "VERIF_C15_HIST": hcases,
+                     "VERIF_C15_HIST_EVERY": ctx.pick(12, 1), "VERIF_C15_DEG_FEW": ctx.pick(2, 12),
                      "VERIF_C15_ROBUST": ctx.pick(4000, 60000)})
     if r is None:
         return
     s = r.summary
     ctx.log("options %d (of %d registered), %d case x option replays, %d Loads in %d processes, %d robustness Loads, %d failed, %.0fs"
             % (s["options"], s["all_options"], s["ran"], s["loads"], s["procs"], s["robust"], s["failed"], r.wall))
+    ctx.log("degenerate values: %d replays; histories: %d options x %d histories = %d Loads in one process (%d references from fresh processes)"
+            % (s.get("degenerate_replays", 0), s.get("hist_options", 0), nh, s.get("hist_steps", 0), s.get("fresh_refs", 0)))
+    if s.get("degenerate_replays", 0) < 1000 or s.get("hist_steps", 0) < 1000:
+        ctx.inconclusive("degenerate / history part incomplete: %s" % json.dumps({k: s.get(k) for k in ("degenerate_replays", "hist_steps")}))
     if s.get("flaky"):
         ctx.log("%d Loads disagreed once and agreed when repeated (transient interface-query errors of the OS); not judged" % s["flaky"])
     unobs = s.get("unobservable") or []
@@ -91,10 +115,13 @@ def run(ctx):
         ctx.inconclusive("only %d of %d registered options were replayed" % (s["options"], s["all_options"]))
     if len(unobs) * 10 > s["all_options"]:
         ctx.inconclusive("%d of %d options are not observable in Config: the comparison would be vacuous" % (len(unobs), s["all_options"]))
-    ctx.cover("replay", traces_validated_against_impl=s["ran"], evaluations=s["loads"], distinct_nontrivial=s["distinct_nontrivial"],
+    ctx.cover("history", traces_validated_against_impl=s.get("hist_steps", 0), samples=s.get("hist_samples") or [])
+    ctx.cover("replay", traces_validated_against_impl=s["ran"] + s.get("degenerate_replays", 0), evaluations=s["loads"], distinct_nontrivial=s["distinct_nontrivial"],
               samples=s.get("samples") or [],
               rule="one replay per (completed Load of the model) x (registered option); non-trivial = at least two sources set for an option whose two values give different configurations, configuration equal to the winner's")
-    ctx.take_failures(r, "sources")
+    for rec in r.of_kind("fail")[:2000]:
+        sub = "history" if rec.get("features", {}).get("sub") == "history" else "sources"
+        ctx.violation(rec.get("features", {}), "%s: %s" % (sub, rec.get("msg", "")), replay={"sub": sub, "case": rec.get("case")})
 
     # 4. accepted configurations can be run
     rr = harness(ctx, "", "C15 runnability", run="^TestVerifC15Run$")
@@ -135,6 +162,10 @@ def replay(ctx, rp):
     vf.write_ndjson(one, [rp["replay"]["case"]])
     if sub == "run":
         r = harness(ctx, one, "C15 replay", run="^TestVerifC15Run$")
+    elif sub == "history":
+        empty = os.path.join(ctx.tmp, "c15.empty")
+        open(empty, "w").close()
+        r = harness(ctx, empty, "C15 replay", env={"VERIF_C15_PROCS": 1, "VERIF_C15_HIST": one})
     else:
         r = harness(ctx, one, "C15 replay", env={"VERIF_C15_PROCS": 1})
     if r is None:
